@@ -59,6 +59,13 @@ def case_strategy(draw, tier):
             targets.append((e["table"], e["index"], "controlled_mdot_kg_per_s", e["controlled_mdot_kg_per_s"]))
         elif e["table"] == "press_control" and draw(st.integers(0, 2)) == 0:
             targets.append((e["table"], e["index"], "controlled_p_bar", e["controlled_p_bar"]))
+    # controller loop inside every step: a controller that needs several control iterations (it walks the target through
+    # intermediate values before it writes the step's value and reports convergence). Such a series gets no absurd load at all
+    # (failing steps then come from supply outages): whether an absurdly loaded net converges is erratic, so a step could fail
+    # in an intermediate control iteration although the stand-alone calculation with the final values happens to converge
+    walkable = (("sink", "mdot_kg_per_s"), ("heat_consumer", "qext_w"), ("flow_control", "controlled_mdot_kg_per_s"))
+    loop = draw(st.integers(1, 3)) if draw(st.integers(0, 2)) == 0 else 0
+    walk_k = next((k for k, t_ in enumerate(targets) if (t_[0], t_[2]) in walkable), None) if loop else None
     prof = {}
     for k, (t, i, col, base) in enumerate(targets):
         vals = []
@@ -68,7 +75,7 @@ def case_strategy(draw, tier):
         for s in range(nsteps):
             fac = draw(st.sampled_from([0.0, 0.5, 1.0, 1.0, 1.3, 2.0] if col not in ("p_bar", "controlled_p_bar") else [0.9, 1.0, 1.1]))
             v = base * fac
-            if col == "mdot_kg_per_s" and draw(st.integers(0, 5)) == 0:
+            if col == "mdot_kg_per_s" and walk_k is None and draw(st.integers(0, 5)) == 0:
                 v = abs(base) * 1e5 + 1e3      # infeasible on purpose
             vals.append(v)
         prof["c%d" % k] = vals
@@ -77,11 +84,9 @@ def case_strategy(draw, tier):
     if not any(t[2] in ("in_service", "opened") for t in targets) and draw(st.integers(0, 2)) == 0:
         # the usual speed-up for time series whose structure does not change: only the loads differ between steps
         opts.update(only_update_hydraulic_matrix=True, reuse_internal_data=True)
-    # controller loop inside every step: a controller that needs several control iterations (it walks the target through
-    # intermediate values before it writes the step's value and reports convergence)
-    loop = draw(st.integers(0, 2)) == 0
     return {"recipe": rec, "options": opts, "targets": [list(t[:3]) for t in targets], "profile": prof, "steps": steps,
-            "continue_on_divergence": draw(st.booleans()), "controller_loop": draw(st.integers(1, 3)) if loop else 0}
+            "continue_on_divergence": draw(st.booleans()), "controller_loop": loop if walk_k is not None else 0,
+            "walk_target": walk_k}
 
 
 def make_walk_controller():
@@ -128,9 +133,8 @@ def evaluate(case):
         by_tv.setdefault((t, col), []).append((i, "c%d" % k))
     walked = None
     if case.get("controller_loop"):
-        # only quantities whose intermediate (smaller) values keep a feasible step feasible
-        k0 = next((k for k, (t, i, col) in enumerate(case["targets"])
-                   if (t, col) in (("sink", "mdot_kg_per_s"), ("heat_consumer", "qext_w"), ("flow_control", "controlled_mdot_kg_per_s"))), None)
+        # only quantities whose intermediate (smaller) values keep a feasible step feasible (chosen by the generator)
+        k0 = case.get("walk_target")
         if k0 is not None:
             t, i, col = case["targets"][k0]
             make_walk_controller()(net, t, col, i, list(prof["c%d" % k0]), case["controller_loop"])
@@ -163,12 +167,12 @@ def evaluate(case):
         for k, (t, i, col) in enumerate(case["targets"]):
             fresh[t].at[i, col] = prof["c%d" % k].iloc[s]
         r = solve(fresh, **{k_: v_ for k_, v_ in opts.items() if k_ != "reuse_internal_data"})
-        statuses.append(r.status)
+        statuses.append("ok" if r.returned else r.status)
         if r.status == "crash":
             from ..recipe import exc_sig
             f.append(Finding("standalone", "C13.standalone.crash." + exc_sig(r.exc), {"step": s}))
             break
-        if not r.ok:
+        if not r.returned:     # (a returned state that recipe.solve classifies as unphysical is still a returned calculation)
             if not cod:
                 if raised is None:
                     f.append(Finding("divergence", "C13.divergence.not_raised", {"step": s, "position": pos, "statuses": statuses}))
